@@ -54,7 +54,7 @@ def harness_env():
 FUNCS = [
     ("cx_lin", "def cx_lin(a, b=2):\n    return a * b + 1\n", ["{i}", "{i}, {i}", "{f}", "{i}, b={i}", "b={i}, a={i}", "-{i}", "{i} + {i} * 2"]),
     ("cx_shift", "def cx_shift(cls, negate=False):\n    op = 1\n    if negate:\n        op = 2\n    return (cls << 16) + (op << 8) + 3\n", ["{s}", "{s}, negate=True", "{s}, True", "SortingClass.Ores", "SortingClass.Ices, negate=True"]),
-    ("cx_hash", "def cx_hash(name, k=0):\n    return (HASH(name) << 8) + k\n", ['"ItemSteelIngot"', '"ItemIronOre", 2', "'it''s'", '"a b", k=7', '"ünï"']),
+    ("cx_hash", "def cx_hash(name, k=0):\n    return (HASH(name) << 8) + k\n", ['"ItemSteelIngot"', '"ItemIronOre", 2', "'it''s'", '"a b", k=7', '"ünï"', "'\"Airlock\"'", "'HASH(\"Tank\")', 3", "'\"'", "'a\"b'", '" padded "']),
     ("cx_loop", "def cx_loop(n):\n    t = 0\n    for i in range(n):\n        t += i * i\n    return t\n", ["{s}", "{s} + 1", "0"]),
     ("cx_cond", "def cx_cond(a, b):\n    if a > b:\n        return a - b\n    elif a == b:\n        return 0\n    return b - a\n", ["{i}, {i}", "{f}, {i}", "-{i}, {i}", "({i}), ({i})"]),
     ("cx_str", "def cx_str(txt):\n    return len(txt) * 10 + ord(txt[0])\n", ['"abc"', "'x'", '"hello world"', '"#tag"', '"a\\\\b"']),
